@@ -1,6 +1,7 @@
 package core
 
 import (
+	"io"
 	"fmt"
 	"math"
 
@@ -41,6 +42,10 @@ func Assemble(na datamodel.NodeAssembler, v Val, r *Rand) error {
 	case 's':
 		return na.AssignString(string(v.S))
 	case 'b':
+		if r != nil && r.Chance(1, 5) {
+			// a stream-backed bytes node whose underlying reader delivers short reads (legal for an io.Reader)
+			return na.AssignNode(basicnode.NewBytesFromReader(&ShortReadSeeker{Data: append([]byte{}, v.S...), Max: 1 + r.Intn(4)}))
+		}
 		return na.AssignBytes(append([]byte{}, v.S...))
 	case 'l':
 		l, err := LinkOf(v.S)
@@ -128,4 +133,41 @@ func BuildBasic(v Val, r *Rand) (datamodel.Node, error) {
 		return nil, err
 	}
 	return nb.Build(), nil
+}
+
+// ShortReadSeeker is an io.ReadSeeker over Data that delivers at most Max bytes per Read.
+type ShortReadSeeker struct {
+	Data []byte
+	Max  int
+	pos  int64
+}
+
+func (s *ShortReadSeeker) Read(p []byte) (int, error) {
+	if s.pos >= int64(len(s.Data)) {
+		return 0, io.EOF
+	}
+	n := len(p)
+	if n > s.Max {
+		n = s.Max
+	}
+	if rem := int64(len(s.Data)) - s.pos; int64(n) > rem {
+		n = int(rem)
+	}
+	copy(p, s.Data[s.pos:s.pos+int64(n)])
+	s.pos += int64(n)
+	return n, nil
+}
+
+func (s *ShortReadSeeker) Seek(offset int64, whence int) (int64, error) {
+	switch whence {
+	case io.SeekCurrent:
+		offset += s.pos
+	case io.SeekEnd:
+		offset += int64(len(s.Data))
+	}
+	if offset < 0 {
+		return 0, fmt.Errorf("negative position")
+	}
+	s.pos = offset
+	return offset, nil
 }
